@@ -58,7 +58,15 @@ def gen(seed, run, sub="direct", tier="quick"):
     end = r.choice(["eof", "eof", "eof", "reset"])
     t += r.choice([0, 0.001, 0.3, 1.0])
     fr = r.choice([0, 0, 1, 2, 3, 7, 64, 255])
-    draws = {"cut": [r.choice([fr, fr, 0.5, 0]) for _ in range(24)] if fr else [],
+    trickle = sub == "direct" and r.random() < 0.02
+    if trickle:
+        # one long line handed out a byte at a time: thousands of buffered chunks
+        stream = bytes(r.choice(b"abcdefgh") for _ in range(r.choice([4200, 6000, 9000]))) + b"\nend\n"
+        arrivals = [[0.0, stream.hex()]]
+        t = 0.5
+        fr = 1
+    wfail_at = r.randrange(1, 40) if (sub == "direct" and r.random() < 0.1) else None
+    draws = {"cut": ([1] if trickle else [r.choice([fr, fr, 0.5, 0]) for _ in range(24)]) if fr else [],
              "spurious": [1 if r.random() < 0.15 else 0 for _ in range(16)] if r.random() < 0.4 else []}
     second = []
     if sub == "direct" and end == "eof" and r.random() < 0.15:
@@ -70,7 +78,7 @@ def gen(seed, run, sub="direct", tier="quick"):
             second.append([round(t2, 6), s2[pos2:pos2 + sz].hex()])
             pos2 += sz
     return {
-        "second": second,
+        "second": second, "wfail_at": wfail_at,
         "lane": "c17", "sub": sub, "arrivals": arrivals, "end": end, "end_at": round(t, 6),
         "draws": draws, "cfg": {"greeting": ""}, "max_steps": 400000,
         "sched": common.gen_sched(r, "%s/%s/c17" % (seed, run), est_steps=2000,
@@ -104,6 +112,13 @@ def execute(scn, guide=None, keep=False):
         cap = 8 * (len(scn["arrivals"]) + stream.count(b"\n") + 8) + 4000
         while res["calls"] < cap:
             res["calls"] += 1
+            if scn.get("wfail_at") == res["calls"]:
+                # the application writes while reading and the write fails (peer shut its read side)
+                sock.wfail = True
+                try:
+                    d.write(b"M105\n")
+                except dev.DeviceError:
+                    k.probe("c17.write_failed_mid_stream")
             try:
                 line = d.readline()
             except SimAbort:
